@@ -87,6 +87,25 @@ def _check_text(t, exp, where):
     allplain = all(col == 0 for _, col in exp)
     if bool(t == plain) != allplain:
         return '%s: (text == %r) is %s' % (where, plain, t == plain)
+    # comparison with strings that are NOT the text: every proper prefix, and the text plus one character
+    for s in [plain[:k] for k in range(len(plain))] + [plain + 'a']:
+        if (t == s) or (s == t) or not (t != s):
+            return '%s: text with visible characters %r compares equal to %r' % (where, plain, s)
+    # every position read back through indexing and through a slice that starts there
+    for i in range(len(exp)):
+        for idx in (i, i - len(exp)):
+            try:
+                one = _project(t[idx])
+            except Exception as ex:
+                return '%s: [%d] raised %s: %s' % (where, idx, type(ex).__name__, str(ex)[:60])
+            if one != [exp[i]]:
+                return '%s: [%d] is %s, spec %s' % (where, idx, one, [exp[i]])
+        try:
+            rest = _project(t[i:])
+        except Exception as ex:
+            return '%s: [%d:] raised %s: %s' % (where, i, type(ex).__name__, str(ex)[:60])
+        if rest != exp[i:]:
+            return '%s: [%d:] is %s, spec %s' % (where, i, rest, exp[i:])
     return None
 
 
